@@ -56,7 +56,19 @@ func EValue(t *rapid.T, label string) *big.Int {
 }
 
 // HashChoice is a crypto.Hash with a defined Size().
-var HashChoices = []crypto.Hash{0, crypto.SHA1, crypto.SHA224, crypto.SHA256, crypto.SHA384, crypto.SHA512, crypto.SHA512_256, crypto.SHA3_256}
+//
+// Every identifier the standard library knows is included, whether or not its
+// implementation is linked into the test binary: the library only needs the
+// identifier's digest size (crypto.Hash.Size works without the implementation),
+// so e.g. a BLAKE2b-256 digest is as admissible as a SHA-256 one.
+var HashChoices = []crypto.Hash{0, crypto.SHA1, crypto.SHA224, crypto.SHA256, crypto.SHA384, crypto.SHA512, crypto.SHA512_256, crypto.SHA3_256,
+	crypto.MD5, crypto.RIPEMD160, crypto.MD5SHA1, crypto.SHA3_224, crypto.SHA3_384, crypto.SHA3_512, crypto.SHA512_224,
+	crypto.BLAKE2s_256, crypto.BLAKE2b_256, crypto.BLAKE2b_384, crypto.BLAKE2b_512}
+
+// WideHashChoices are the identifiers whose digests are at least 32 bytes
+// (the only ones a signature can be valid for).
+var WideHashChoices = []crypto.Hash{0, crypto.SHA256, crypto.SHA384, crypto.SHA512, crypto.SHA512_256, crypto.SHA3_256, crypto.SHA3_384, crypto.SHA3_512,
+	crypto.BLAKE2s_256, crypto.BLAKE2b_256, crypto.BLAKE2b_384, crypto.BLAKE2b_512}
 
 // HashSize is the digest size the library will demand for h under
 // *ECDSAOptions (0 means SHA-256).
